@@ -8,16 +8,17 @@
 
 use crate::bcodec::bencoder::BEncoder;
 use crate::bcodec::bvalue::BValue;
-use crate::bcodec::raw_finder::RawFinder;
 use crate::constants::{HASH_SIZE, PIECE_LENGTH};
 use crate::hashmap;
 use crate::Error;
-use crate::{BDecoder, DeepFinder};
+use crate::BDecoder;
 use sha1_smol;
 use std::collections::HashMap;
 use std::convert::{TryFrom, TryInto};
 use std::fs;
+use std::iter::Enumerate;
 use std::path::{Path, PathBuf};
+use std::slice::Iter;
 
 /// Metainfo file (also known as .torrent; see [BEP3](https://www.bittorrent.org/beps/bep_0003.html#metainfo%20files))
 /// describe all data required to find download file/files from peer-to-peer network.
@@ -298,13 +299,55 @@ impl Metainfo {
     }
 
     fn calculate_hash(data: &[u8]) -> Result<[u8; HASH_SIZE], Error> {
-        if let Some(info) = DeepFinder::find_first("4:info", data) {
+        if let Some(info) = Self::find_raw_info(data) {
             let mut hasher = sha1_smol::Sha1::new();
-            hasher.update(info.as_ref());
+            hasher.update(info);
             return Ok(hasher.digest().bytes());
         }
 
         Err(Error::InfoMissing)
+    }
+
+    /// Find raw (not decoded) value of "info" key in first top-level dictionary which has such key.
+    /// Keys with the same name nested in other values are not taken into account.
+    fn find_raw_info(data: &[u8]) -> Option<&[u8]> {
+        let mut it = data.iter().enumerate();
+        while let Some((pos, b)) = it.next() {
+            if *b != b'd' {
+                Self::skip_value(&mut it, pos, b)?;
+                continue;
+            }
+
+            // Walk through key-value pairs of top-level dictionary
+            while let Some((pos, b)) = it.next() {
+                if *b == b'e' {
+                    break;
+                }
+                let key = BDecoder::parse_byte_str(&mut it, pos, b).ok()?.0;
+
+                let (start, b) = it.next()?;
+                Self::skip_value(&mut it, start, b)?;
+                let end = match it.clone().next() {
+                    Some((end, _)) => end,
+                    None => data.len(),
+                };
+
+                if key == b"info" {
+                    return Some(&data[start..end]);
+                }
+            }
+        }
+
+        None
+    }
+
+    fn skip_value(it: &mut Enumerate<Iter<u8>>, pos: usize, first: &u8) -> Option<()> {
+        match first {
+            b'0'..=b'9' => BDecoder::parse_byte_str(it, pos, first).ok().map(|_| ()),
+            b'i' => BDecoder::parse_int(it, pos).ok().map(|_| ()),
+            b'l' | b'd' => BDecoder::values_vector(it, true).ok().map(|_| ()),
+            _ => None,
+        }
     }
 
     /// Return URL of the tracker
